@@ -169,6 +169,7 @@ pub struct Mat {
     pub chunked: bool,
     pub delete_roller: bool, // use DeleteRoller (true) or FixedWindowRoller with count 0 (false) when Roller=delete/count=0
     pub via_config: bool,    // build the appender through the configuration deserializers instead of the builders
+    pub dir_pattern: bool,   // the index is in a directory component of the archive pattern (<dir>/w{}/arch.log)
 }
 
 /// harness trigger kind `scripted` for configuration-built appenders
@@ -201,10 +202,15 @@ impl World {
         self.dir.join("active.log")
     }
     fn arch(&self, i: i64) -> PathBuf {
-        self.dir.join(if self.mat.gz { format!("arch.{}.log.gz", i) } else { format!("arch.{}.log", i) })
+        PathBuf::from(self.pattern().replace("{}", &i.to_string()))
     }
     fn pattern(&self) -> String {
-        self.dir.join(if self.mat.gz { "arch.{}.log.gz" } else { "arch.{}.log" }).to_string_lossy().to_string()
+        let leaf = if self.mat.gz { "arch.{}.log.gz" } else { "arch.{}.log" };
+        if self.mat.dir_pattern {
+            self.dir.join("w{}").join(leaf.replace(".{}", "")).to_string_lossy().to_string()
+        } else {
+            self.dir.join(leaf).to_string_lossy().to_string()
+        }
     }
     /// the projection compared with the specification's `disk`
     fn observe(&self) -> Value {
@@ -218,8 +224,12 @@ impl World {
                     if gz {
                         use std::io::Read;
                         let mut o = vec![];
-                        if flate2::read::GzDecoder::new(&bytes[..]).read_to_end(&mut o).is_err() {
+                        let mut d = flate2::bufread::GzDecoder::new(&bytes[..]);
+                        if d.read_to_end(&mut o).is_err() {
                             return json!({"k": "file", "corrupt": "bad gzip stream"});
+                        }
+                        if !d.into_inner().is_empty() {
+                            return json!({"k": "file", "corrupt": "bytes after the gzip member"});
                         }
                         bytes = o;
                     }
@@ -239,9 +249,20 @@ impl World {
         let managed: Vec<PathBuf> = (self.base..=self.base + self.count).map(|i| self.arch(i)).chain([self.act()]).collect();
         if let Ok(rd) = fs::read_dir(&self.dir) {
             for e in rd.flatten() {
-                if !managed.contains(&e.path()) {
-                    strays.push(e.file_name().to_string_lossy().to_string());
+                if managed.contains(&e.path()) {
+                    continue;
                 }
+                // with the index in a directory component the per-index directories themselves are managed (empty
+                // or not); whatever else is inside them is a stray
+                if self.mat.dir_pattern && managed.iter().any(|m| m.parent() == Some(&e.path())) {
+                    for inner in fs::read_dir(e.path()).into_iter().flatten().flatten() {
+                        if !managed.contains(&inner.path()) {
+                            strays.push(format!("{}/{}", e.file_name().to_string_lossy(), inner.file_name().to_string_lossy()));
+                        }
+                    }
+                    continue;
+                }
+                strays.push(e.file_name().to_string_lossy().to_string());
             }
         }
         json!({"act": entry(&self.act(), false), "arch": arch, "strays": strays})
@@ -473,9 +494,10 @@ pub fn main(args: &[String]) {
     quiet_panics();
     let rows = read_ndjson(&args[0]);
     let mats = [
-        Mat { unit: 10, gz: false, chunked: false, delete_roller: true, via_config: false },
-        Mat { unit: 400, gz: false, chunked: true, delete_roller: false, via_config: false },
-        Mat { unit: 16, gz: true, chunked: false, delete_roller: true, via_config: true },
+        Mat { unit: 10, gz: false, chunked: false, delete_roller: true, via_config: false, dir_pattern: false },
+        Mat { unit: 400, gz: false, chunked: true, delete_roller: false, via_config: false, dir_pattern: false },
+        Mat { unit: 16, gz: true, chunked: false, delete_roller: true, via_config: true, dir_pattern: false },
+        Mat { unit: 12, gz: false, chunked: false, delete_roller: false, via_config: true, dir_pattern: true },
     ];
     let res = par_map(&rows, threads(), |i, c| {
         let mut out = vec![];
